@@ -49,6 +49,9 @@ class Defect:
         self.id, self.kind, self.set, self.styles, self.doc, self.special = did, kind, setp, styles, doc, special
         self.also = tuple(also)      # further documented rules the same modification inevitably falls under
         self.thorough_only = False
+        self.sector = None           # name of the state that must be reported as tachyonic ("<sector> tachyon")
+        self.pairs_in_quick = True   # False: enumerated alone in the quick tier, in all pairs in the thorough tier
+        self.assumes = ()            # parameters whose valid base value the realisation relies on
 
     def kinds(self):
         return (self.kind,) + self.also
@@ -96,12 +99,48 @@ def mssm_defects():
                     "massless lightest chargino", special="cha0", also=("tachyon",)))
     # tachyons with all soft squared masses positive: left-right mixing m_f (A_f - mu tan(beta)|cot(beta))
     # exceeding the diagonal entries, or a D-term larger than the soft mass
-    D.append(Defect("tach:Sm", "tachyon", {"Ae_2": 1e9}, both, "tachyonic smuon (A_mu = 1e9)"))
-    D.append(Defect("tach:Stau", "tachyon", {"Ae_3": 1e8}, both, "tachyonic stau (A_tau = 1e8)"))
-    D.append(Defect("tach:Sb", "tachyon", {"Ad_3": 1e9}, both, "tachyonic sbottom (A_b = 1e9)"))
-    D.append(Defect("tach:St", "tachyon", {"Au_3": 1e8}, both, "tachyonic stop (A_t = 1e8)"))
-    D.append(Defect("tach:SvmL", "tachyon", {"msl_2": 30.0}, ("gm2",),
-                    "tachyonic muon sneutrino (msl(2,2)^2 = 900 < -MZ^2 cos(2 beta)/2)"))
+    # Every sfermion mass matrix is [[mL^2 + mf^2 + DL, mf X], [mf X, mR^2 + mf^2 + DR]].  A state is
+    # tachyonic iff the determinant is negative (exactly one negative eigenvalue) or both diagonal
+    # entries are.  Each monitored sector is realised in four forms, because "which eigenvalue is the
+    # negative one" differs between them:
+    #   mix-small   huge left-right mixing, all soft masses positive: trace > 0, so the negative
+    #               eigenvalue is the one of SMALLER magnitude
+    #   D-dom       tiny positive soft masses at tan(beta) = 1/2, where the D-terms make the trace
+    #               negative: the negative eigenvalue is the one of LARGER magnitude ("dominant")
+    #               (impossible for the stop: 2 mt^2 >> MZ^2)
+    #   soft-small  negative soft mass^2 in one chirality, smaller in magnitude than the positive one
+    #   soft-dom    negative soft mass^2 in one chirality, 4x the positive one in magnitude
+    # The soft-* forms are also negative-soft-mass inputs (either error class is correct without
+    # force-output) but the tachyon itself must be flagged: exit status non-zero under force-output.
+    def tach(did, sector, setp, styles, doc, also=(), pairs_in_quick=False, assumes=()):
+        d = Defect(did, "tachyon", setp, styles, doc, also=also)
+        d.sector, d.pairs_in_quick, d.assumes = sector, pairs_in_quick, tuple(assumes)
+        D.append(d)
+
+    tach("tach:Sm", "Sm", {"Ae_2": 1e9}, both, "tachyonic smuon, mix-small (A_mu = 1e9)", pairs_in_quick=True)
+    tach("tach:Stau", "Stau", {"Ae_3": 1e8}, both, "tachyonic stau, mix-small (A_tau = 1e8)", pairs_in_quick=True)
+    tach("tach:Sb", "Sb", {"Ad_3": 1e9}, both, "tachyonic sbottom, mix-small (A_b = 1e9)", pairs_in_quick=True)
+    tach("tach:St", "St", {"Au_3": 1e8}, both, "tachyonic stop, mix-small (A_t = 1e8)", pairs_in_quick=True)
+    tach("tach:SvmL", "SvmL", {"msl_2": 30.0}, ("gm2",),
+         "tachyonic muon sneutrino (msl(2,2)^2 = 900 < -MZ^2 cos(2 beta)/2)", pairs_in_quick=True,
+         assumes=("TB",))       # needs cos(2 beta) < 0, i.e. the tan(beta) > 1 of the base points
+    tach("tach:SvmL:soft", "SvmL", {"msl_2": -200.0}, ("gm2",), "tachyonic muon sneutrino, msl(2,2)^2 = -4e4", also=("input",))
+    tach("tach:Sm:D-dom", "Sm", {"TB": 0.5, "msl_2": 20.0, "mse_2": 40.0}, ("gm2",),
+         "tachyonic smuon, dominant negative eigenvalue (tan(beta) = 1/2, msl = 20, mse = 40)")
+    tach("tach:Stau:D-dom", "Stau", {"TB": 0.5, "msl_3": 20.0, "mse_3": 40.0}, both,
+         "tachyonic stau, dominant negative eigenvalue (tan(beta) = 1/2, msl3 = 20, mse3 = 40)")
+    tach("tach:Sb:D-dom", "Sb", {"TB": 0.5, "msq_3": 20.0, "msd_3": 30.0}, both,
+         "tachyonic sbottom, dominant negative eigenvalue (tan(beta) = 1/2, msq3 = 20, msd3 = 30)")
+    for sec, L, R, sty, small, floor in (("Sm", "msl_2", "mse_2", ("gm2",), 0.3, 100.0),
+                                         ("Stau", "msl_3", "mse_3", both, 0.3, 100.0),
+                                         ("Sb", "msq_3", "msd_3", both, 0.3, 100.0),
+                                         ("St", "msq_3", "msu_3", both, 0.5, 400.0)):
+        tach("tach:%s:soft-small" % sec, sec, {R: ("rel", L, small, floor)}, sty,
+             "tachyonic %s: %s^2 = -max(%g |%s|, %g)^2, negative eigenvalue of smaller magnitude" % (sec, R, small, L, floor),
+             also=("input",))
+        tach("tach:%s:soft-dom" % sec, sec, {R: ("rel", L, 2.0, floor)}, sty,
+             "tachyonic %s: %s^2 = -max(2 |%s|, %g)^2, negative eigenvalue of larger magnitude" % (sec, R, L, floor),
+             also=("input",))
     return D
 
 
@@ -136,6 +175,8 @@ def compatible(a, b):
     """two defects can be applied together iff they do not assign the same parameter"""
     if set(a.set) & set(b.set):
         return False
+    if set(a.assumes) & set(b.set) or set(b.assumes) & set(a.set):
+        return False         # one realisation relies on a base value the other one changes
     if a.id.startswith("basis=") and b.id.startswith("basis="):
         return False         # 'both' and 'neither' applied together turn one valid basis into the other
     for x, y in ((a, b), (b, a)):
@@ -147,9 +188,12 @@ def compatible(a, b):
 def apply(point, defects, helpers):
     """returns the modified copy of a valid parameter point"""
     p = dict(point)
+    late = []
     for d in sorted(defects, key=lambda x: x.special == "cha0"):     # cha0 last: it depends on MW, MZ, alpha
         for k, v in d.set.items():
-            if v is REMOVE:
+            if isinstance(v, tuple) and v[0] == "rel":
+                late.append((k, v))          # relative to another (possibly modified) parameter
+            elif v is REMOVE:
                 p.pop(k, None)
             elif v == "negate":
                 p[k] = -abs(p[k])
@@ -159,6 +203,8 @@ def apply(point, defects, helpers):
                 p[k] = helpers["mw_tree"](p)
             else:
                 p[k] = v
+    for k, (_, other, factor, floor) in late:
+        p[k] = -max(factor * abs(p[other]), floor)       # signed mass: the soft mass squared is -(...)^2
     return p
 
 
